@@ -39,7 +39,29 @@ def gen_cases(rng, tier):
             npos, nneg = rng.randint(1, 7), rng.randint(1, 7)
             ep, en = rng.choice([0, 0, 1, 4]), rng.choice([0, 0, 2, 5])
         style = rng.choice(["ties", "ints", "distinct", "distinct", "dyadic"])
-        if style == "distinct":
+        if k % 9 == 4:
+            style = "adjacent"
+        if style == "adjacent":
+            # scores of different classes that are neighbouring doubles (or neighbouring float32 values): the points one
+            # ulp either side of a score coincide with the neighbouring score of the other class
+            import math
+            import struct
+            f32 = rng.random() < 0.4
+
+            def step32(v, up):
+                (i,) = struct.unpack("<i", struct.pack("<f", v))
+                i += (1 if up else -1) * (1 if v > 0 else -1) if v != 0 else 0
+                return struct.unpack("<f", struct.pack("<i", i))[0] if v != 0 else (2.0 ** -149 if up else -2.0 ** -149)
+
+            step = step32 if f32 else (lambda v, up: math.nextafter(v, math.inf if up else -math.inf))
+            base = [float(Fraction(v, 2)) for v in rng.sample(range(-12, 12), npos + nneg)]
+            pos, neg = [Fraction(v) for v in base[:npos]], [Fraction(v) for v in base[npos:]]
+            for j in range(min(npos, nneg, rng.randint(1, 3))):
+                if rng.random() < 0.5:
+                    neg[j] = Fraction(step(float(pos[j]), rng.random() < 0.5))
+                else:
+                    pos[j] = Fraction(step(float(neg[j]), rng.random() < 0.5))
+        elif style == "distinct":
             vals = rng.sample(range(-30, 30), npos + nneg)
             pos, neg = [Fraction(v, 2) for v in vals[:npos]], [Fraction(v, 2) for v in vals[npos:]]
         else:
@@ -50,7 +72,7 @@ def gen_cases(rng, tier):
         mid = Fraction(rng.randint(int(lo * 16), int(hi * 16)), 16)
         cases.append({"pos": [enc(x) for x in pos], "neg": [enc(x) for x in neg], "ep": ep, "en": en, "sc": sc, "ec": ec,
                       "lower": enc(lo), "upper": enc(hi), "mid": enc(mid), "exact": exact,
-                      "dtype": pick_dtype(rng, pos + neg)})
+                      "dtype": ("float32" if style == "adjacent" and f32 else pick_dtype(rng, pos + neg))})
     return cases
 
 
